@@ -27,7 +27,10 @@ pub fn judge(h: &History, recs: &[StepRec]) -> Result<(), Failure> {
         if let Step::Send { rx, .. } = &r.step {
             let joined = r.snap_before.joined;
             let faulted = rx.fault_at.is_some();
-            if joined && r.txs.is_empty() && !faulted && !matches!(&r.outcome, Outcome::Resp(s) if s == "SessionExpired") {
+            // a payload that cannot share a 255-byte frame with up to 15 bytes of owed MAC answers may be
+            // refused with the proper error (an application payload of at most 227 bytes always fits)
+            let refused_too_long = r.payload_sent.len() > 227 && matches!(&r.outcome, Outcome::Err(e) if e.contains("PayloadTooLong"));
+            if joined && r.txs.is_empty() && !faulted && !refused_too_long && !matches!(&r.outcome, Outcome::Resp(s) if s == "SessionExpired") {
                 return Err(Failure::new("can-still-transmit", h.json(), format!("joined device did not hand a frame to the radio: {}\n{}", r.outcome.text(), render(recs, 5))));
             }
         }
